@@ -80,7 +80,7 @@ where
     };
     let min = S::FMT.min();
     dom.pieces.par_iter().for_each(|p| {
-        guard::enter(&json!({"sys":"rect","fmt":S::FMT.name(),"piece":p.describe()}).to_string());
+        let _guard_scope = guard::scoped(&json!({"sys":"rect","fmt":S::FMT.name(),"piece":p.describe()}).to_string());
         let mut n = 0u64;
         let mut bad = None;
         p.for_each(|u| {
@@ -435,7 +435,7 @@ fn main() {
     let ctx = Ctx::new("C19", "release");
     let fams = families();
     if let Some(v) = ctx.replay_case() {
-        guard::enter(&v.to_string());
+        let _guard_scope = guard::scoped(&v.to_string());
         let r: Option<String> = match v["sys"].as_str().unwrap_or("") {
             "rect" => {
                 let val: i128 = v["v"].as_str().and_then(|s| s.parse().ok()).unwrap_or(0);
@@ -463,7 +463,7 @@ fn main() {
     for_int_fmts!(rs);
     let fpat: Vec<u32> = if thorough { (0..=u32::MAX).collect() } else { (0..(1u32 << 21)).map(|p| (p << 11) | if p & 1 == 0 { 0 } else { 0x7ff }).collect() };
     fpat.par_chunks(1 << 18).for_each(|ch| {
-        guard::enter(&json!({"sys":"rect_float","bits":ch[0]}).to_string());
+        let _guard_scope = guard::scoped(&json!({"sys":"rect_float","bits":ch[0]}).to_string());
         for &b in ch {
             if let Some(m) = rect_float(b) {
                 ctx.violation("rect.float", json!({"sys":"rect_float","bits":b}), m, Some(&|| rect_float(b)));
@@ -511,7 +511,7 @@ fn main() {
         let mut fps = Vec::new();
         for (hi, h) in all.iter().enumerate() {
             if hi % 512 == 0 {
-                guard::enter(&json!({"sys":"follow","family":f.name,"atk":atk,"rel":rel,"actions":acts_json(h)}).to_string());
+                let _guard_scope = guard::scoped(&json!({"sys":"follow","family":f.name,"atk":atk,"rel":rel,"actions":acts_json(h)}).to_string());
             }
             match catch(|| (f.run)(atk, rel, h)) {
                 Ok(Ok(fp)) => {
@@ -547,7 +547,7 @@ fn main() {
         })
         .collect();
     fams.par_iter().for_each(|f| {
-        guard::enter(&json!({"sys":"follow_soak","family":f.name,"steps":soak_n}).to_string());
+        let _guard_scope = guard::scoped(&json!({"sys":"follow_soak","family":f.name,"steps":soak_n}).to_string());
         if let Err((k, m)) = (f.run)(2.5, 100.0, &soak) {
             let short: String = m.chars().rev().take(300).collect::<String>().chars().rev().collect();
             ctx.violation(&k, json!({"sys":"follow_soak","family":f.name,"steps":soak_n}), format!("{}: soak history of {soak_n} steps: ...{short}", f.name), None);
